@@ -48,7 +48,7 @@ def plan(tier):
   if tier == 'quick':
     return {'runs': 320, 'budget_s': 420, 'per_run_timeout_s': 300, 'selftest_runs': 8,
             'selftest_runs_full': 48, 'shrink_budget_s': 60}
-  return {'runs': 12000, 'budget_s': 1800, 'per_run_timeout_s': 900, 'selftest_runs': 16,
+  return {'runs': 60000, 'budget_s': 1800, 'per_run_timeout_s': 900, 'selftest_runs': 16,
           'selftest_runs_full': 96, 'shrink_budget_s': 120}
 
 
